@@ -416,12 +416,14 @@ case("optres", "(u8, u8, Option<u8>, Result<u8, u8>)", "(option::unwrap_or!(None
 case("optres", "(u8, Option<u8>, Result<u8, u16>)", "(result::unwrap_or!(Err::<u8, u8>(1), 4), result::ok!(Ok::<u8, u8>(6)), result::map_err!(Err::<u8, u8>(2), |e| e as u16 * 300))")
 
 
-def program(failed):
+def program(failed, tags=None):
     """failed: dict case number -> message (those cases are not compiled; their line says REJECTED)"""
     lines = [HEAD]
     marks = {}
     body = ["fn main() {", "    let mut out = Out::new();"]
     for k, (tag, ty, expr) in enumerate(CASES):
+        if tags is not None and tag not in tags:
+            continue
         args = "%d %s" % (k, "x" + expr.encode().hex())
         if k in failed:
             body.append('    out.line("c01.ctfe", "%s", "REJECTED %s", "-", "%s");' % (args, failed[k].replace('"', "'").replace("\\", "/")[:200], tag))
@@ -438,6 +440,8 @@ def program(failed):
     bl = {}
     n = body_start + 2
     for k in range(len(CASES)):
+        if tags is not None and CASES[k][0] not in tags:
+            continue
         bl[n] = k
         n += 1
     return src + "\n".join(body) + "\n", marks, bl
@@ -453,13 +457,13 @@ def cargo_build(crate, release, timeout=2400):
     return p.returncode == 0, p.stderr
 
 
-def produce(tier, seed, release, out_path):
+def produce(tier, seed, release, out_path, crate=CRATE, tags=None):
     failed = {}
-    binname = "c01ctfe_main"
+    binname = crate + "_main"
     for attempt in range(8):
-        src, marks, bl = program(failed)
-        common.make_crate(CRATE, {binname: src})
-        ok, stderr = cargo_build(CRATE, release)
+        src, marks, bl = program(failed, tags)
+        common.make_crate(crate, {binname: src})
+        ok, stderr = cargo_build(crate, release)
         if ok:
             break
         new = 0
@@ -482,8 +486,8 @@ def produce(tier, seed, release, out_path):
                     new += 1
         if new == 0:
             errs = re.findall(r"^error[^\n]*(?:\n\s+-->[^\n]*)?", stderr, re.M)
-            return "generated crate %s does not build against /repo: %s" % (CRATE, " | ".join(errs[:6]) or stderr[-1500:])
+            return "generated crate %s does not build against /repo: %s" % (crate, " | ".join(errs[:6]) or stderr[-1500:])
     else:
-        return "generated crate %s still does not build after removing the rejected constants" % CRATE
+        return "generated crate %s still does not build after removing the rejected constants" % crate
     open(out_path, "w").close()
-    return common.run_bin(CRATE, binname, [], out_path, release)
+    return common.run_bin(crate, binname, [], out_path, release)
